@@ -8,6 +8,9 @@
    is regenerated from the C source into C18/Gen.v on every run.  Definitions only. *)
 From Coq Require Import ZArith List Bool.
 Import ListNotations.
+(* exn, res (C15/Spec.v) and the wide-character helpers from_char16 / from_char32 (C15/Gen.v,
+   REGENERATED from src/c/wchar_helper_3.h on every run by tools/props/c15_regen.py) *)
+From Cffi Require Export C15.Spec C15.Gen.
 Open Scope Z_scope.
 
 (* ---------------------------------------------------------------- bytes and integers *)
@@ -112,8 +115,8 @@ Definition fits_long (k : kind) : bool :=
   | _ => false
   end.
 
-Inductive exn := ValueError | TypeError | SystemError | RuntimeError | IndexError | FatalError
-             | OutOfModel.   (* a read past the end of the modelled memory: no claim is made *)
+(* exn (with OutOfModel: a read past the end of the modelled memory, no claim is made) and res:
+   C15/Spec.v *)
 
 Inductive value :=
 | VInt (z : Z)
@@ -126,10 +129,6 @@ Inductive value :=
 | VBytes (l : list Z)
 | VStr (l : list Z).              (* code points *)
 
-Inductive res (A : Type) := Ok (a : A) | Err (e : exn).
-Arguments Ok {A} a.
-Arguments Err {A} e.
-
 (* what ffi.unpack / the joined comprehension returns *)
 Inductive result :=
 | RList (l : list value)
@@ -138,41 +137,7 @@ Inductive result :=
 | RErr (e : exn).
 
 (* ---------------------------------------------------------------- wchar_helper_3.h *)
-Definition is_hi (u : Z) : bool := (0xD800 <=? u) && (u <=? 0xDBFF).
-Definition is_lo (u : Z) : bool := (0xDC00 <=? u) && (u <=? 0xDFFF).
-
-(* first loop of _my_PyUnicode_FromChar16 *)
-Fixpoint count_surrogates (w : list Z) : Z :=
-  match w with
-  | a :: r => match r with
-              | b :: _ => (if is_hi a && is_lo b then 1 else 0) + count_surrogates r
-              | [] => 0
-              end
-  | [] => 0
-  end.
-
-Definition join_pair (ch ch2 : Z) : Z :=
-  Z.lor (Z.shiftl (Z.land ch 0x3FF) 10) (Z.land ch2 0x3FF) + 0x10000.
-
-(* second loop *)
-Fixpoint join16_loop (w : list Z) : list Z :=
-  match w with
-  | [] => []
-  | a :: r => match r with
-              | b :: r' => if is_hi a && is_lo b then join_pair a b :: join16_loop r'
-                           else a :: join16_loop r
-              | [] => [a]
-              end
-  end.
-
-Definition from_char16 (w : list Z) : res (list Z) :=
-  if count_surrogates w =? 0 then Ok w      (* PyUnicode_FromKindAndData(2BYTE_KIND) *)
-  else Ok (join16_loop w).
-
-(* _my_PyUnicode_FromChar32 = PyUnicode_FromKindAndData(4BYTE_KIND): CPython refuses a maximum
-   character above 0x10FFFF with SystemError *)
-Definition from_char32 (w : list Z) : res (list Z) :=
-  if existsb (fun u => 0x10FFFF <? u) w then Err SystemError else Ok w.
+(* _my_PyUnicode_FromChar16 / _my_PyUnicode_FromChar32: [from_char16], [from_char32] of C15/Gen.v *)
 
 (* n units of usz bytes each *)
 Fixpoint units (usz : Z) (bs : list Z) (n : nat) : list Z :=
@@ -402,14 +367,6 @@ Fixpoint zlist_eqb (x y : list Z) : bool :=
   match x, y with
   | [], [] => true
   | a :: x', b :: y' => (a =? b) && zlist_eqb x' y'
-  | _, _ => false
-  end.
-
-Definition exn_eqb (a b : exn) : bool :=
-  match a, b with
-  | ValueError, ValueError | TypeError, TypeError | SystemError, SystemError
-  | RuntimeError, RuntimeError | IndexError, IndexError | FatalError, FatalError
-  | OutOfModel, OutOfModel => true
   | _, _ => false
   end.
 
